@@ -153,7 +153,9 @@ def check_pad(rec, n, per, gb, gf, cb, cf, w, layout, seed, g=None, second=True)
         a0 = labels(shape, seed, which)
         da = xr.DataArray(a0.copy(), dims=list(layout))
         try:
-            r = pad(da, g, {"X": wx, "Y": wy}, boundary=_copy(cb), fill_value=_copy(cf))
+            # widths are given as tuples or as lists, alternately
+            bw = {"X": wx, "Y": wy} if (wx[0] + wy[1]) % 2 == 0 else {"X": list(wx), "Y": list(wy)}
+            r = pad(da, g, bw, boundary=_copy(cb), fill_value=_copy(cf))
         except Exception as e:
             rec.case((n, per, gb, gf, cb, cf, w, layout), nz)
             rec.violation("pad", "raise:" + exc_sig(e), case, "padded array", f"{type(e).__name__}: {e}"[:200])
